@@ -18,6 +18,7 @@ type SolveResult struct {
 	Status   string // unsat | sat | unknown | timeout | error
 	Backend  string
 	Seconds  float64
+	WinSecs  float64 // time taken by the solver that decided the obligation
 	File     string
 	Output   string
 	Attempts []string
@@ -84,12 +85,16 @@ type Solver struct {
 	Args func(file string, timeout time.Duration) []string
 }
 
+// SolverSeed is passed to the z3 back ends as smt.random_seed (0 = solver default); only the baseline
+// admission run varies it, to detect obligations whose proof time is unstable.
+var SolverSeed = 0
+
 var Solvers = []Solver{
 	{"z3-new", func(f string, t time.Duration) []string {
-		return []string{"z3-new", fmt.Sprintf("-T:%d", int(t.Seconds())+1), f}
+		return []string{"z3-new", fmt.Sprintf("-T:%d", int(t.Seconds())+1), fmt.Sprintf("smt.random_seed=%d", SolverSeed), f}
 	}},
 	{"z3", func(f string, t time.Duration) []string {
-		return []string{"z3", fmt.Sprintf("-T:%d", int(t.Seconds())+1), f}
+		return []string{"z3", fmt.Sprintf("-T:%d", int(t.Seconds())+1), fmt.Sprintf("smt.random_seed=%d", SolverSeed), f}
 	}},
 	{"cvc5", func(f string, t time.Duration) []string {
 		return []string{"cvc5", "--lang", "smt2", fmt.Sprintf("--tlimit=%d", t.Milliseconds()), f}
@@ -165,7 +170,7 @@ func (ex *Exec) solveOne(o *Obligation, dir string, idx int, timeout time.Durati
 	st, out, secs := runSolver(Solvers[0], file, first)
 	r.Attempts = append(r.Attempts, fmt.Sprintf("%s:%s:%.2fs", Solvers[0].Name, st, secs))
 	if st == "unsat" || st == "sat" {
-		r.Status, r.Backend, r.Output = st, Solvers[0].Name, out
+		r.Status, r.Backend, r.Output, r.WinSecs = st, Solvers[0].Name, out, secs
 	} else {
 		// stage 2: race all solvers with the full budget; the first definitive answer wins
 		type res struct {
@@ -188,7 +193,7 @@ func (ex *Exec) solveOne(o *Obligation, dir string, idx int, timeout time.Durati
 				r.Attempts = append(r.Attempts, fmt.Sprintf("%s:%s:%.2fs", x.s.Name, x.st, x.secs))
 			}
 			if (x.st == "unsat" || x.st == "sat") && r.Backend == "" {
-				r.Status, r.Backend, r.Output = x.st, x.s.Name, x.out
+				r.Status, r.Backend, r.Output, r.WinSecs = x.st, x.s.Name, x.out, x.secs
 				cancel()
 			} else if r.Backend == "" && x.st != "cancelled" {
 				if x.st == "timeout" {
